@@ -66,7 +66,7 @@ def cases(tier, seed):
     out = []
     block = 48
     for idx in range(0, len(combos), block):
-        out.append(dict(id='combo-%d' % idx, start=idx, stop=idx + block, variants=(12 if tier == 'thorough' else 1), seed=seed))
+        out.append(dict(id='combo-%d' % idx, start=idx, stop=idx + block, variants=(40 if tier == 'thorough' else 1), seed=seed))
     return out
 
 
